@@ -10,7 +10,7 @@ import (
 // C14: hash commands against a reference field -> value map.
 
 func init() {
-	register("C14", familyCheck{&familySpec{Prop: "C14", Kinds: []string{"hash"}, Ref: refHash, Random: hashRandom, Sig: hashSig,
+	register("C14", familyCheck{&familySpec{Prop: "C14", Kinds: []string{"hash"}, Ref: refHash, Random: hashRandom, Sig: hashSig, LooseDeadlines: true,
 		Title: "refHash (a Go map field -> value text: HSET/HSETNX/HDEL, integer and float increments, exact readers, sized random selections)"}})
 }
 
